@@ -64,7 +64,27 @@ type Case struct {
 	Downstream string `json:"downstream,omitempty"`
 	// Shaped: the proxy is served on a trafficshape.Listener without shapes.
 	Shaped bool `json:"shaped,omitempty"`
+	// HijackReads: a hijacker that announces itself (every one outside TLS) goes
+	// on to READ what the client sends once it has seen the announcement - from
+	// the net.Conn ("conn") or from the bufio.ReadWriter ("brw") it was handed -
+	// and acknowledges it. The client sends a token and ends its sending side:
+	// TCP delivers in order, so a hijacker that sees end-of-stream without the
+	// token has proof that somebody else read from the connection after the
+	// hijack.
+	HijackReads string `json:"hijack_reads,omitempty"`
+	// EarlyAnswer: the origin answers a request that has a body as soon as it has
+	// the head (a 401/413-style answer) and only then takes the body, so the
+	// response modifier runs while the body is still in transit. Together with
+	// PartialOnHijack only the head and three body bytes of a request on which the
+	// RESPONSE modifier hijacks are on the wire when it does.
+	EarlyAnswer bool `json:"early_answer,omitempty"`
 }
+
+// hijackToken is what the client sends to a reading hijacker.
+func hijackToken(id string) string { return "CLIENT-TO-HIJACKER-" + id + "\n" }
+
+// hijackAck is the reading hijacker's acknowledgement.
+func hijackAck(id string) string { return "HIJACKER-GOT-" + id + "\n" }
 
 // connectProxy is a minimal downstream CONNECT proxy: 200, then splice.
 func connectProxy(l net.Listener, route func(host string) string) {
@@ -131,6 +151,10 @@ type call struct {
 	method  string
 	hijErr  error
 	sameReq bool
+	// reading hijackers: what they read after their announcement, and how it ended
+	hijRead    bool
+	hijGot     []byte
+	hijReadErr error
 }
 
 type probe struct {
@@ -142,6 +166,11 @@ type probe struct {
 	multi    bool
 	stale    [][2]string // (ended exchange, exchange during which its context was still retrievable)
 	errValue string
+	// hijReads: "" | "conn" | "brw"; connOnly: exchanges whose hijacker must keep
+	// to the net.Conn (see run); T: the liveness bound of this run
+	hijReads string
+	connOnly map[string]bool
+	T        time.Duration
 }
 
 type timeoutErr struct{ msg string }
@@ -209,16 +238,50 @@ func (p *probe) record(c call) {
 	p.mu.Unlock()
 }
 
-func hijackWrite(ctx *martian.Context, marker string) error {
-	_, brw, err := ctx.Session().Hijack()
+// hijack takes the session over, announces itself with marker (if any) and,
+// when reads is "conn" or "brw", reads from what it was handed until it has the
+// client's token (then acknowledges it), the stream ends or T passes.
+func hijack(ctx *martian.Context, c *call, id, marker, reads string, T time.Duration) error {
+	conn, brw, err := ctx.Session().Hijack()
 	if err != nil {
 		return err
 	}
-	if marker != "" {
-		brw.WriteString(marker)
+	if marker == "" {
+		return nil
+	}
+	brw.WriteString(marker)
+	if err := brw.Flush(); err != nil || reads == "" {
+		return err
+	}
+	c.hijRead = true
+	var r io.Reader = conn
+	if reads == "brw" {
+		r = brw.Reader
+	}
+	token := []byte(hijackToken(id))
+	conn.SetReadDeadline(time.Now().Add(T))
+	tmp := make([]byte, 512)
+	for !bytes.Contains(c.hijGot, token) && len(c.hijGot) < 64<<10 {
+		n, err := r.Read(tmp)
+		c.hijGot = append(c.hijGot, tmp[:n]...)
+		if err != nil {
+			c.hijReadErr = err
+			break
+		}
+	}
+	conn.SetReadDeadline(time.Time{})
+	if bytes.Contains(c.hijGot, token) {
+		brw.WriteString(hijackAck(id))
 		return brw.Flush()
 	}
 	return nil
+}
+
+func (p *probe) readsFor(id string) string {
+	if p.hijReads == "brw" && p.connOnly[id] {
+		return "conn"
+	}
+	return p.hijReads
 }
 
 func (p *probe) ModifyRequest(req *http.Request) error {
@@ -236,6 +299,7 @@ func (p *probe) ModifyRequest(req *http.Request) error {
 		p.reqOf[id] = req
 	}
 	silent := p.mitm[id]
+	reads := p.readsFor(id)
 	// exchanges that ended earlier on this connection (their handler has
 	// returned, or this request could not have been read) must be gone
 	for _, prev := range p.calls {
@@ -260,7 +324,7 @@ func (p *probe) ModifyRequest(req *http.Request) error {
 			if silent {
 				marker = ""
 			}
-			c.hijErr = hijackWrite(ctx, marker)
+			c.hijErr = hijack(ctx, &c, id, marker, reads, p.T)
 		}
 	}
 	p.record(c)
@@ -285,6 +349,7 @@ func (p *probe) ModifyResponse(res *http.Response) error {
 	p.mu.Lock()
 	c.sameReq = p.reqOf[id] == req
 	silent := p.mitm[id]
+	reads := p.readsFor(id)
 	p.mu.Unlock()
 	var err error
 	switch beh {
@@ -298,7 +363,7 @@ func (p *probe) ModifyResponse(res *http.Response) error {
 			if silent {
 				marker = ""
 			}
-			c.hijErr = hijackWrite(ctx, marker)
+			c.hijErr = hijack(ctx, &c, id, marker, reads, p.T)
 		}
 	}
 	p.record(c)
@@ -357,6 +422,17 @@ func runOnce(c Case, T time.Duration) (v kit.Verdict) {
 	defer plainOrigin.Close()
 	tlsOrigin := netkit.NewTLSOrigin(netkit.ServerTLS("secure.test"), handler)
 	defer tlsOrigin.Close()
+	if c.EarlyAnswer {
+		// the same answer, given on the head alone; the body is taken afterwards
+		early := func(r *netkit.ReqLog) *netkit.Script {
+			if r.CL == 0 && len(r.TE) == 0 {
+				return nil
+			}
+			sc := handler(r)
+			return &sc
+		}
+		plainOrigin.Early, tlsOrigin.Early = early, early
+	}
 
 	// raw echo target for blind tunnels; closes when it reads a line "BYE"
 	echoL, err := netkit.Listen()
@@ -419,7 +495,8 @@ func runOnce(c Case, T time.Duration) (v kit.Verdict) {
 		return plainOrigin.Addr
 	}}
 
-	pb := &probe{clock: &clock, reqOf: map[string]*http.Request{}, mitm: map[string]bool{}, multi: c.MultilineErrors, errValue: c.ErrValue}
+	pb := &probe{clock: &clock, reqOf: map[string]*http.Request{}, mitm: map[string]bool{}, multi: c.MultilineErrors, errValue: c.ErrValue,
+		hijReads: c.HijackReads, connOnly: map[string]bool{}, T: T}
 	needMITM := false
 	for _, cn := range c.Conns {
 		if cn.Mode == "mitm" || cn.Mode == "mitm-plain" {
@@ -535,9 +612,23 @@ func runOnce(c Case, T time.Duration) (v kit.Verdict) {
 						return
 					}
 				}
-				send("GET http://origin.test/after-hijack HTTP/1.1\r\nHost: origin.test\r\nX-Verif-Id: after-hijack-" + id + "\r\nX-Verif-Beh: pass\r\n\r\n")
+				reading := marker != "" && c.HijackReads != ""
+				if reading {
+					// what the client sends now is the hijacker's: the token, then
+					// the end of the client's stream
+					send(hijackToken(id))
+					if cw, ok := conn.(interface{ CloseWrite() error }); ok {
+						cw.CloseWrite()
+					}
+				} else {
+					send("GET http://origin.test/after-hijack HTTP/1.1\r\nHost: origin.test\r\nX-Verif-Id: after-hijack-" + id + "\r\nX-Verif-Beh: pass\r\n\r\n")
+				}
 				conn.SetReadDeadline(time.Now().Add(T))
 				stray, rerr := io.ReadAll(br)
+				if reading {
+					// (a missing acknowledgement is judged by what the hijacker read)
+					stray = bytes.TrimPrefix(stray, []byte(hijackAck(id)))
+				}
 				closed := rerr == nil || netkit.IsReset(rerr) || (tlsInside && !netkit.IsTimeout(rerr))
 				if len(stray) > 0 {
 					addf("C02/hijack/"+shape+"/bytes-after-hijack", "exchange %s: after the hijacker returned the client still received %q", id, trunc(stray, 120))
@@ -548,7 +639,7 @@ func runOnce(c Case, T time.Duration) (v kit.Verdict) {
 						class = "not-closed-timeout"
 					}
 					addf("C02/hijack/"+shape+"/"+class, "exchange %s: the proxy did not close the hijacked connection within %v after the modifier returned (%v)", id, T, rerr)
-				} else if !tlsInside && rerr == nil {
+				} else if !tlsInside && rerr == nil && !reading {
 					// end-of-stream alone could be a half-close by a proxy that goes on
 					// reading: a closed socket refuses further bytes (reset) within moments
 					refused := false
@@ -694,6 +785,17 @@ func runOnce(c Case, T time.Duration) (v kit.Verdict) {
 				if beh == bHijReq && c.Body != "" && c.PartialOnHijack {
 					wire = wire[:strings.Index(wire, "\r\n\r\n")+4+3]
 				}
+				if beh == bHijRes && c.Body != "" && c.EarlyAnswer {
+					// The body of this request is (or may still be) in transit when the
+					// response modifier hijacks: whoever forwards it shares the session's
+					// bufio.Reader, so this hijacker keeps to the net.Conn.
+					pb.mu.Lock()
+					pb.connOnly[id] = true
+					pb.mu.Unlock()
+					if c.PartialOnHijack {
+						wire = wire[:strings.Index(wire, "\r\n\r\n")+4+3]
+					}
+				}
 				if err := send(wire); err != nil {
 					addf("C02/exchange/"+cn.Mode+"/client-write-failed", "exchange %s: %v", id, err)
 					return
@@ -828,6 +930,21 @@ func runOnce(c Case, T time.Duration) (v kit.Verdict) {
 			v.Addf("C02/session/"+kind+"/session-shared-across-connections", "connections %d and %d share session %s", oc, e.conn, rq.sessID)
 		}
 		connOfSess[rq.sess] = e.conn
+		// a reading hijacker gets everything the client sends after the hijack
+		for _, cl := range cs {
+			if !cl.hijRead || bytes.Contains(cl.hijGot, []byte(hijackToken(e.id))) {
+				continue
+			}
+			shape := m + "/HIJACKED-" + strings.ToUpper(cl.phase)
+			if cl.phase == "res" && pb.connOnly[e.id] {
+				shape += "-body-in-transit"
+			}
+			class := "client-bytes-after-hijack-not-received-by-hijacker"
+			if netkit.IsTimeout(cl.hijReadErr) {
+				class = "timeout-" + class
+			}
+			v.Addf("C02/hijack/"+shape+"/"+class, "exchange %s: the %s modifier hijacked the session, announced itself and read from the %s it was handed: it got %q (%v), not the %q the client sent after the announcement and before ending its stream - somebody else read from the hijacked connection", e.id, map[string]string{"req": "request", "res": "response"}[cl.phase], pb.readsFor(e.id), trunc(cl.hijGot, 80), cl.hijReadErr, hijackToken(e.id))
+		}
 		for _, rs := range resCalls {
 			if rs.seq < rq.seq {
 				v.Addf("C02/calls/"+kind+"/response-modifier-before-request-modifier", "exchange %s", e.id)
@@ -948,6 +1065,8 @@ func genCase(t *rapid.T) Case {
 	c.Shaped = rapid.IntRange(0, 4).Draw(t, "shaped") == 0
 	c.Body = rapid.SampledFrom([]string{"", "", "", "cl", "cl-large", "chunked", "cl-request-shaped", "cl-request-shaped"}).Draw(t, "body")
 	c.PartialOnHijack = c.Body != "" && rapid.Bool().Draw(t, "partial_on_hijack")
+	c.EarlyAnswer = c.Body != "" && rapid.Bool().Draw(t, "early_answer")
+	c.HijackReads = rapid.SampledFrom([]string{"", "conn", "brw"}).Draw(t, "hijack_reads")
 	if family == "blind" && rapid.Bool().Draw(t, "via_downstream") {
 		c.Downstream = rapid.SampledFrom([]string{"plain", "credentials"}).Draw(t, "downstream")
 	}
@@ -1066,6 +1185,37 @@ func classes(c Case) []string {
 	if c.Shaped {
 		set["traffic-shaped-listener"] = true
 	}
+	if c.EarlyAnswer {
+		set["origin-answers-before-the-body"] = true
+	}
+	for _, cn := range c.Conns {
+		// (hijackers inside TLS stay silent and do not read)
+		if cn.Mode != "plain" && isHijack(cn.ConnectBeh) && c.HijackReads != "" {
+			set["hijacker-reads-"+c.HijackReads] = true
+			set["reading-hijacker-on-"+cn.ConnectBeh] = true
+		}
+		if cn.Mode == "mitm" || (cn.Mode != "plain" && isHijack(cn.ConnectBeh)) {
+			continue
+		}
+		for _, b := range cn.Inner {
+			if !isHijack(b) {
+				continue
+			}
+			if c.HijackReads != "" {
+				set["hijacker-reads-"+c.HijackReads] = true
+				set["reading-hijacker-on-"+b] = true
+				if b == bHijRes && c.Body == "" {
+					set["reading-hijacker-on-response-of-bodyless-request"] = true
+				}
+			}
+			if b == bHijRes && c.Body != "" && c.EarlyAnswer {
+				set["response-hijack-with-request-body-in-transit"] = true
+				if c.HijackReads != "" {
+					set["reading-hijacker-on-response-with-request-body-in-transit"] = true
+				}
+			}
+		}
+	}
 	var out []string
 	for k := range set {
 		out = append(out, k)
@@ -1075,9 +1225,10 @@ func classes(c Case) []string {
 
 var propMods = &kit.Prop[Case]{
 	ID: "C02", Name: "modifiers",
-	Rule: "1..3 connections (plain, blind CONNECT to an echo target, CONNECT+MITM with inner requests over TLS), 1..5 exchanges each, behaviour per exchange in {pass, mutate, request error, response error, skip round trip, hijack on request, hijack on response}; probe modifiers log every call with request/context/session identity; non-trivial = >=2 exchanges on a connection or any behaviour other than pass",
+	Rule: "1..3 connections (plain, blind CONNECT to an echo target, CONNECT+MITM with inner requests over TLS), 1..5 exchanges each, behaviour per exchange in {pass, mutate, request error, response error, skip round trip, hijack on request, hijack on response}; hijackers outside TLS optionally go on to read what the client sends next (from the conn or the bufio.ReadWriter they were handed); origins that answer on the head while the request body is still in transit; probe modifiers log every call with request/context/session identity; non-trivial = >=2 exchanges on a connection or any behaviour other than pass",
 	Gen:  genCase, Run: run, NonTrivial: nontrivial, Classes: classes, Journal: true,
-	Gates: map[string]float64{"multi-exchange-connection": 0.4, "mode-mitm": 0.2, "mode-blind": 0.1, "beh-hijack-req": 0.08, "beh-hijack-res": 0.08, "beh-skip": 0.1},
+	Gates: map[string]float64{"multi-exchange-connection": 0.4, "mode-mitm": 0.2, "mode-blind": 0.1, "beh-hijack-req": 0.08, "beh-hijack-res": 0.08, "beh-skip": 0.1,
+		"reading-hijacker-on-hijack-res": 0.03, "reading-hijacker-on-hijack-req": 0.03},
 }
 
 func TestModifiers(t *testing.T) {
